@@ -8,9 +8,12 @@
     * `C05_order_indep_without_resolvable`: with no resolvable call every root's result is the
       same under any order and any number of earlier generations;
     * `C05_sort_is_perm_invariant_on_distinct_keys`-style facts are part of C18.
+    * depth-one fragment (every resolvable callee is a leaf): `C05_depthOne_order_independent`
+      (+ `_mem`, `C05_depthOne_getsOf`): a root's result is the same under any two root orders.
 -/
 import RattrProofs.Lemmas.Results
 import RattrProofs.Lemmas.ResultsCex
+import RattrProofs.Lemmas.ResultsDepthOne
 
 namespace Rattr.C05
 open Rattr Rattr.Results Rattr.Cex
@@ -51,5 +54,58 @@ theorem C05_full_false : ¬ C05_full := by
   rw [C05_cex_order.1, C05_cex_order.2] at this
   revert this
   decide
+
+/-! ### the depth-one fragment: results do not depend on the order of roots -/
+
+/-- In a depth-one program the result of a root is the same — as lists, hence as sets — under any
+two orders of roots (any lists of roots: no `Nodup`, no `Perm` needed) and after any earlier
+generation: it only reads the root's own entry (no other root writes it, since a caller is never
+a callee) and entries of leaves (never written). -/
+theorem C05_depthOne_order_independent (P : Prog) (hP : DepthOne P) (σ : Store)
+    (o₁ o₂ : List Key) (rs₁ rs₂ : List (Key × IrSets)) (σ₁ σ₂ : Store)
+    (h₁ : generate P o₁ σ = .ok (rs₁, σ₁)) (h₂ : generate P o₂ σ = .ok (rs₂, σ₂))
+    (f : Key) (res₁ res₂ : IrSets) (m₁ : (f, res₁) ∈ rs₁) (m₂ : (f, res₂) ∈ rs₂) :
+    res₁ = res₂ := by
+  obtain ⟨_, a, _⟩ := generate_depthOne hP o₁ σ σ₁ rs₁ (Inv.refl P σ) h₁
+  obtain ⟨_, b, _⟩ := generate_depthOne hP o₂ σ σ₂ rs₂ (Inv.refl P σ) h₂
+  have a1 := a (f, res₁) m₁
+  have b1 := b (f, res₂) m₂
+  simp only at a1 b1
+  rw [a1] at b1
+  injection b1
+
+/-- membership form of `C05_depthOne_order_independent`. -/
+theorem C05_depthOne_order_independent_mem (P : Prog) (hP : DepthOne P) (σ : Store)
+    (o₁ o₂ : List Key) (rs₁ rs₂ : List (Key × IrSets)) (σ₁ σ₂ : Store)
+    (h₁ : generate P o₁ σ = .ok (rs₁, σ₁)) (h₂ : generate P o₂ σ = .ok (rs₂, σ₂))
+    (f : Key) (res₁ res₂ : IrSets) (m₁ : (f, res₁) ∈ rs₁) (m₂ : (f, res₂) ∈ rs₂) (x : NameS) :
+    (x ∈ res₁.gets ↔ x ∈ res₂.gets) ∧ (x ∈ res₁.sets ↔ x ∈ res₂.sets) ∧
+    (x ∈ res₁.dels ↔ x ∈ res₂.dels) := by
+  rw [C05_depthOne_order_independent P hP σ o₁ o₂ rs₁ rs₂ σ₁ σ₂ h₁ h₂ f res₁ res₂ m₁ m₂]
+  exact ⟨Iff.rfl, Iff.rfl, Iff.rfl⟩
+
+/-- `C05_full` restricted to the fragment, in the form of the full statement: for a depth-one
+program whose callees' names start with their basename, `getsOf` of a root is the same under any
+two orders containing it. -/
+theorem C05_depthOne_getsOf (P : Prog) (hP : DepthOne P) (σ : Store) (hσ : CalleeWB P σ)
+    (o₁ o₂ : List Key) (f : Key) (hf₁ : f ∈ o₁) (hf₂ : f ∈ o₂) :
+    getsOf P σ o₁ f = getsOf P σ o₂ f := by
+  have key : ∀ o : List Key, f ∈ o →
+      getsOf P σ o f = (rootResult P σ f).map (fun ir => fulls ir.gets) := by
+    intro o ho
+    obtain ⟨rs, σ', hg⟩ := generate_depthOne_ok hP o σ (Inv.refl P σ)
+      (fun g _ => rootResult_isSome hσ g)
+    obtain ⟨hfst, hres, _⟩ := generate_depthOne hP o σ σ' rs (Inv.refl P σ) hg
+    unfold getsOf
+    rw [hg]
+    simp only
+    rw [lookup_results rs f (by rw [hfst]; exact ho) hres]
+  rw [key o₁ hf₁, key o₂ hf₂]
+
+/-- non-vacuity: two callers sharing a leaf, generated in two different orders. -/
+example : DepthOne P1 ∧
+    getsOf P1 σ1 [0, 1, 2] 1 = some [s "b.y", s "b.y.attr"] ∧
+    getsOf P1 σ1 [2, 1, 0] 1 = some [s "b.y", s "b.y.attr"] :=
+  ⟨P1_depthOne, by decide +kernel, by decide +kernel⟩
 
 end Rattr.C05
